@@ -37,6 +37,18 @@ def numpyEmpty (n : Nat) (junk : Nat → Nat) : Array Nat := Array.ofFn (n := n)
 @[inline] def csub (a b : Nat) : M Nat :=
   if b ≤ a then pure (a - b) else throw (.value "integer below zero")
 
+/-- `numpy.concatenate(list of arrays)` -/
+def concatAll (l : List (Array Nat)) : Array Nat := l.foldl (· ++ ·) #[]
+
+/-- `numpy.cumsum` -/
+def cumsumFrom (acc : Nat) : List Nat → List Nat
+  | [] => []
+  | x :: xs => (acc + x) :: cumsumFrom (acc + x) xs
+def cumsumArr (a : Array Nat) : Array Nat := (cumsumFrom 0 a.toList).toArray
+
+/-- element-wise `a - b` of two integer arrays (the kernel uses it as `cumsum(lengths) - lengths`, never negative) -/
+def zipSub (a b : Array Nat) : Array Nat := (List.zipWith (· - ·) a.toList b.toList).toArray
+
 /-- `view[i] = v`, checked -/
 @[inline] def wrAt (buf : Array Nat) (i v : Nat) : M (Array Nat) :=
   if i < buf.size then pure (buf.setIfInBounds i v) else throw (.oobWrite i buf.size)
